@@ -1007,6 +1007,48 @@ func checkC20(P *Prog, r *Result) {
 		}
 	}
 	r.floor("C20/predicate", 22)
+	// A kind whose subject type has its own documented predicate (time: instants compared with Equal, not ==)
+	// must not build that test from the generic constructor: `p.EQ[time.Time](t)` compiles — time.Time is
+	// comparable — and compares wall clock, location and monotonic reading. Every instantiation of a generic
+	// test constructor is judged with the class of its type argument.
+	litsOf := map[*ssa.Function][]testLit{}
+	for _, l := range lits {
+		if l.hasCode && l.codeConst && funcPkgPath(l.fn) == pkgInternals {
+			litsOf[l.fn] = append(litsOf[l.fn], l)
+		}
+	}
+	for _, caller := range P.Funcs {
+		eachInstr(caller, func(_ *ssa.BasicBlock, _ int, in ssa.Instruction) {
+			c, ok := in.(*ssa.Call)
+			if !ok {
+				return
+			}
+			inst := c.Call.StaticCallee()
+			if inst == nil || len(inst.TypeArgs()) == 0 || len(litsOf[originOf(inst)]) == 0 {
+				return
+			}
+			class := ""
+			for _, ta := range inst.TypeArgs() {
+				if n, ok := types.Unalias(ta).(*types.Named); ok && n.Obj().Pkg() != nil && n.Obj().Pkg().Path() == "time" && n.Obj().Name() == "Time" {
+					class = "time"
+				}
+			}
+			if class == "" {
+				return
+			}
+			for _, l := range litsOf[originOf(inst)] {
+				exp, ok := c20Table[l.code+"/"+class]
+				if !ok {
+					continue
+				}
+				generic := c20Table[l.code+"/generic"]
+				cname := fmt.Sprintf("%s→%s#%s", fname(caller), fname(originOf(inst)), l.code)
+				if generic.form != "" && generic.form != exp.form {
+					r.bad("C20/predicate", cname, P.ipos(in), fmt.Sprintf("the %s test reporting %q is built from the generic constructor, whose predicate is %s; documented for this subject type: %s", class, l.code, generic.doc, exp.doc))
+				}
+			}
+		})
+	}
 	// regex globals: compiled once from a constant, never reassigned
 	for _, fn := range P.Funcs {
 		// every function of the root package that reads a regular-expression global (the predicate closures,
